@@ -101,12 +101,18 @@ def gen_cases(seed, n_trees):
         else:
             tree, nat = g.any(rng.choice([2, 3, 3, 4, 4, 5]))
             ev = rng.random() < 0.4
+        if any(sub[0] == 9 and sub[2][0] == 0 and sub[3][0] == 0 for sub in uc.subtrees(tree)):
+            # a relation between two plain number literals (3 < 0): in a model every number is a Quantity (a symbol), and
+            # SymPy re-evaluating such a constant condition while a parent node is rebuilt raises errors of its own
+            continue
         tj = uc.tree_json(tree)
         tgs = targets_for(rng, nat)
         for k, t in enumerate(tgs):
             cases.append({'kind': ['none', 'natural', 'rescaled', 'rescaled', 'wrong'][k], 'tree': tj,
                           'target': tjson(t), 'evaluate': ev, 'seed': seed, 'i': i})
         for kind, m in uc.mutations(rng, tree):
+            if any(sub[0] == 9 and sub[2][0] == 0 and sub[3][0] == 0 for sub in uc.subtrees(m)):
+                continue
             cases.append({'kind': 'mut-' + kind, 'tree': uc.tree_json(m), 'target': tjson(rng.choice(tgs[:4])),
                           'evaluate': ev, 'seed': seed, 'i': i})
     return cases
